@@ -5,6 +5,7 @@ import Mathlib.Algebra.Order.Field.Rat
 import Mathlib.Algebra.Order.Field.Basic
 import Mathlib.Data.List.Sort
 import Mathlib.Data.List.Forall2
+import Mathlib.Tactic.Positivity
 /-!
 # C17 helper lemmas about the model `Pun.KS`
 
@@ -14,7 +15,9 @@ import Mathlib.Data.List.Forall2
   bundles of the band `clip (F_n(t) ± D)` from the first sample point on (`eval_upper`, `eval_lower`);
 * counting: moving sample points to the right lowers `#{≤ t}` (`countLE_anti`);
 * `'next'` lookup (`interp1d(kind="next")`): antitone in the cdf (`nextLookup_dom`,
-  `nextLookup_dom_append`), what `extend_ecdf` does to the three bundles, and `pbox_core`.
+  `nextLookup_dom_append`), what `extend_ecdf` does to the three bundles, and `pbox_core`;
+* P8 of DESIGN-proofs.md verbatim (`nextQ`, `massLE`, `nextQ_is_geninv`) and its bridge to the model
+  (`nextLookup_pFrom_eq_nextQ`, `massLE_unifW`).
 -/
 set_option linter.unusedSimpArgs false
 set_option linter.unusedVariables false
@@ -463,5 +466,118 @@ theorem pbox_core {Q pE Qt Pt : List ℚ} {q0 : ℚ} (hQ : Q = q0 :: Qt) (hP : p
   have hLlen : Q.length = (lower D pE).length := by rw [hLmap, List.length_map]; exact hlen
   obtain ⟨b, hb, heb⟩ := nextLookup_dom_append hLdom hQs hLlen (le_getLast_of_sorted hQs hql) hx1 he
   exact ⟨a, e, b, by rw [hUx, hUi]; exact ha, by rw [hE, hEi]; exact he, by rw [hLx, hLi]; exact hb, hae, heb⟩
+
+/-! ### P8 (DESIGN-proofs.md): 'next'-kind lookup is the generalised inverse of cumulated mass -/
+
+/-- 'next'-kind lookup on a weighted, value-sorted sample: first value whose cumulated mass reaches `x` -/
+def nextQ : List (ℚ × ℚ) → ℚ → ℚ → Option ℚ
+  | [], _, _ => none
+  | (s, w) :: rest, acc, x => if x ≤ acc + w then some s else nextQ rest (acc + w) x
+
+/-- total mass of focal endpoints `≤ t` -/
+def massLE : List (ℚ × ℚ) → ℚ → ℚ
+  | [], _ => 0
+  | (s, w) :: rest, t => (if s ≤ t then w else 0) + massLE rest t
+
+theorem massLE_nonneg (l : List (ℚ × ℚ)) (hw : ∀ p ∈ l, 0 ≤ p.2) (t : ℚ) : 0 ≤ massLE l t := by
+  induction l with
+  | nil => simp [massLE]
+  | cons p rest ih =>
+    obtain ⟨s, w⟩ := p
+    have h1 : 0 ≤ w := hw (s, w) (by simp)
+    have h2 := ih (fun q hq => hw q (List.mem_cons_of_mem _ hq))
+    simp only [massLE]; split <;> linarith
+
+theorem massLE_zero_of_lt (l : List (ℚ × ℚ)) (t : ℚ) (h : ∀ p ∈ l, t < p.1) : massLE l t = 0 := by
+  induction l with
+  | nil => simp [massLE]
+  | cons p rest ih =>
+    obtain ⟨s, w⟩ := p
+    have h1 : t < s := h (s, w) (by simp)
+    have h2 := ih (fun q hq => h q (List.mem_cons_of_mem _ hq))
+    simp [massLE, not_le.mpr h1, h2]
+
+theorem nextQ_mem (l : List (ℚ × ℚ)) (acc x s : ℚ) (h : nextQ l acc x = some s) : ∃ p ∈ l, p.1 = s := by
+  induction l generalizing acc with
+  | nil => simp [nextQ] at h
+  | cons p rest ih =>
+    obtain ⟨s0, w0⟩ := p
+    simp only [nextQ] at h
+    by_cases hx : x ≤ acc + w0
+    · simp only [hx, if_true, Option.some.injEq] at h
+      exact ⟨(s0, w0), by simp, h⟩
+    · simp only [hx, if_false] at h
+      obtain ⟨p, hp, hps⟩ := ih _ h
+      exact ⟨p, List.mem_cons_of_mem _ hp, hps⟩
+
+/-- the value returned is the generalised inverse of the cumulated-mass function at level `x` -/
+theorem nextQ_is_geninv (l : List (ℚ × ℚ)) (hs : l.Pairwise (fun a b => a.1 ≤ b.1))
+    (hw : ∀ p ∈ l, 0 ≤ p.2) (acc x s : ℚ) (hacc : acc < x) (h : nextQ l acc x = some s) :
+    x ≤ acc + massLE l s ∧ ∀ t, t < s → acc + massLE l t < x := by
+  induction l generalizing acc with
+  | nil => simp [nextQ] at h
+  | cons p rest ih =>
+    obtain ⟨s0, w0⟩ := p
+    rw [List.pairwise_cons] at hs
+    obtain ⟨hhead, hrest⟩ := hs
+    have hw0 : 0 ≤ w0 := hw (s0, w0) (by simp)
+    have hwr : ∀ q ∈ rest, 0 ≤ q.2 := fun q hq => hw q (List.mem_cons_of_mem _ hq)
+    simp only [nextQ] at h
+    by_cases hx : x ≤ acc + w0
+    · simp only [hx, if_true, Option.some.injEq] at h
+      subst h
+      constructor
+      · simp only [massLE, le_refl, if_true]
+        have := massLE_nonneg rest hwr s0
+        linarith
+      · intro t ht
+        have hz : massLE ((s0, w0) :: rest) t = 0 := by
+          apply massLE_zero_of_lt
+          intro q hq
+          rcases List.mem_cons.mp hq with rfl | hq
+          · exact ht
+          · exact lt_of_lt_of_le ht (hhead q hq)
+        rw [hz]; linarith
+    · simp only [hx, if_false] at h
+      have hacc' : acc + w0 < x := not_le.mp hx
+      obtain ⟨h1, h2⟩ := ih hrest hwr (acc + w0) hacc' h
+      obtain ⟨q, hq, hqs⟩ := nextQ_mem rest _ _ _ h
+      have hs0 : s0 ≤ s := hqs ▸ hhead q hq
+      constructor
+      · simp only [massLE, hs0, if_true]; linarith
+      · intro t ht
+        have := h2 t ht
+        simp only [massLE]
+        split <;> linarith
+
+/-! bridge to the model: the ecdf bundle is the weighted sample with weights `1/n` -/
+
+def unifW (n : ℕ) (l : List ℚ) : List (ℚ × ℚ) := l.map (fun q => (q, 1 / (n : ℚ)))
+
+theorem nextLookup_pFrom_eq_nextQ (n : ℕ) (l : List ℚ) (k : ℕ) (x : ℚ) :
+    nextLookup (pFrom n (k + 1) l.length) l x = nextQ (unifW n l) ((k : ℚ) / n) x := by
+  induction l generalizing k with
+  | nil => simp [nextLookup, nextQ, unifW, pFrom]
+  | cons q qs ih =>
+    have e : ((k : ℚ) / n) + 1 / n = ((k + 1 : ℕ) : ℚ) / n := by push_cast; ring
+    simp only [List.length_cons, pFrom, nextLookup, unifW, List.map_cons, nextQ]
+    rw [e]
+    split_ifs
+    · rfl
+    · have := ih (k + 1)
+      simp only [unifW] at this
+      rw [this]
+
+theorem massLE_unifW (n : ℕ) (l : List ℚ) (t : ℚ) : massLE (unifW n l) t = (countLE l t : ℚ) / n := by
+  induction l with
+  | nil => simp [massLE, unifW, countLE]
+  | cons q qs ih =>
+    simp only [unifW, List.map_cons, massLE, countLE, List.countP_cons] at *
+    rw [ih]
+    split_ifs with h1 h2 h2
+    · push_cast; ring
+    · exact absurd (by simpa using h1) h2
+    · exact absurd (by simpa using h2) h1
+    · simp
 
 end Pun.KS
